@@ -72,6 +72,7 @@ class World:
         self.rng = rng
         CLOCK.reset()
         self.lan = FaultNet("lan", Plan())
+        self.lan.frame_cap = 10 ** 9      # long sessions: the per-transaction frame budget does not apply
         self.dev = ServiceDevice(self.lan, 5)
         self.objs = {}
         inc = rng.choice([1.0, 0.5, 10.0])
